@@ -43,6 +43,10 @@ def stepLine (fx : Fixes) (st : DState) (line : String) : DState × String :=
     let inp := input rest
     let inp := if inp.head? == some "LEX" then inp ++ ["FIXED", if fx.f8 then "1" else "0"] else inp
     (st, s!"csv {id} MODEL {LexCsv.handle inp}")
+  | "threads" :: id :: _ =>
+    -- `interleave_independent` + `reset_then_tokenize_fresh` (Props/C04): every worker's result
+    -- equals the sequential fresh-worker result, whatever the interleaving
+    (st, s!"threads {id} MODEL same-as-sequential")
   | "corpus" :: id :: rest => (st, s!"corpus {id} MODEL {Corpus.handle (input rest)}")
   | s :: id :: _ => (st, s!"{s} {id} MODEL unknown-stream")
   | _ => (st, "? ? MODEL badline")
